@@ -226,6 +226,13 @@ def m_dur_as_millis(c):
     return v
 
 
+@model('Duration::as_secs')
+def m_dur_as_secs(c):
+    d = deref(c.st, c.args[0])
+    v = d.load(0, 'u64', c.st)          # Durations are carried as whole milliseconds
+    return Int(z3.simplify(z3.UDiv(v.v, z3.BitVecVal(1000, 64))), False)
+
+
 @pattern(r'^<Duration as PartialOrd>::(lt|le|gt|ge)$')
 def m_dur_cmp(c):
     a = deref(c.st, c.args[0]).load(0, 'u64', c.st).v
